@@ -6,7 +6,7 @@
 //
 // Output (stdout), one record per line:
 //   H <scenario> <count> <first-schedule> | ev ; ev ; ...   one per DISTINCT observable history
-//   F <scenario> <schedule> | <failure text> | ev ; ev ; ... one per failing execution (first 20)
+//   F <scenario> <schedule> | <failure text> | ev ; ev ; ... one per failing execution (first 20 per distinct failure)
 //   S <scenario> executions=N distinct=N with_preemption=N failures=N deadlocks=N exhausted=0|1 max_steps=N
 #pragma once
 #include "rt.hpp"
@@ -51,12 +51,12 @@ inline int main_impl(int argc, char** argv) {
   for (auto& s : registry()) {
     if (!scn.empty() && scn != "all" && s.name != scn) continue;
     std::map<std::string, std::pair<long, std::string>> hist;
-    int nfail = 0;
+    std::map<std::string, int> nfail;   // printed failing executions per distinct first failure text
     rt::Stats st = rt::explore(s.body, opt, [&](const rt::Execution& e) {
       std::string h = join_hist(e.history);
       auto it = hist.find(h);
       if (it == hist.end()) hist.emplace(h, std::make_pair(1L, join_sched(e.choices))); else it->second.first++;
-      if (!e.failures.empty() && nfail++ < 20) {
+      if (!e.failures.empty() && nfail.size() < 64 && nfail[e.failures[0]]++ < 20) {
         std::string f; for (auto& x : e.failures) { if (!f.empty()) f += " && "; f += x; }
         printf("F %s %s | %s | %s\n", s.name.c_str(), join_sched(e.choices).c_str(), f.c_str(), h.c_str());
       }
